@@ -64,8 +64,6 @@ const harnessPath = "verif/harness/"
 func busyReason(g GoroutineInfo) string {
 	ours := strings.Contains(g.Body, sutPath) || strings.Contains(g.Body, harnessPath)
 	switch g.State {
-	case "running", "runnable":
-		return "active"
 	case "syscall", "sleep", "IO wait":
 		if !ours {
 			return ""
@@ -79,12 +77,27 @@ func busyReason(g GoroutineInfo) string {
 		if topSUTFrame(g.Body) == "app.(*Process).run" {
 			return "backoff"
 		}
+		return ""
 	case "chan receive":
 		if strings.Contains(g.Body, "app.(*Process).forceKillOnTimeout") {
 			return "killtimer"
 		}
+		return ""
+	case "semacquire":
+		// a sync primitive parks with sync.runtime_Semacquire* on top; anything else is a
+		// runtime-internal semaphore (e.g. a GC start waiting for the end of this very
+		// stop-the-world dump) and will move on by itself
+		if strings.HasPrefix(strings.TrimLeft(g.Body, "\n"), "sync.") {
+			return ""
+		}
+		return "active"
+	case "chan send", "select (no cases)", "chan receive (nil chan)", "chan send (nil chan)",
+		"sync.Cond.Wait", "sync.Mutex.Lock", "sync.RWMutex.RLock", "sync.RWMutex.Lock", "sync.WaitGroup.Wait",
+		"finalizer wait", "force gc (idle)", "GC sweep wait", "GC scavenge wait", "GC worker (idle)", "trace reader (blocked)", "debug call":
+		return ""
 	}
-	return ""
+	// running, runnable, preempted, GC assist wait, copystack, ... : may still move by itself
+	return "active"
 }
 
 // topSUTFrame returns the innermost frame of src/app in the stack, shortened.
@@ -130,6 +143,7 @@ func SettleDump(maxWait time.Duration) (bool, []GoroutineInfo, string) {
 			}
 		}
 		if busy == "" {
+			LastSettled = gs
 			return true, gs[1:], ""
 		}
 		if time.Now().After(deadline) {
@@ -159,4 +173,28 @@ func SUTGoroutines() []GoroutineInfo {
 		}
 	}
 	return out
+}
+
+// LastSettled is the dump on which the last successful Settle was decided (debugging aid).
+var LastSettled []GoroutineInfo
+
+// DumpText renders the current goroutine dump (debugging aid).
+func DumpText() string {
+	var b strings.Builder
+	b.WriteString("---- dump on which Settle decided:\n")
+	for _, g := range LastSettled {
+		b.WriteString("goroutine " + g.ID + " [" + g.State + "] busy=" + busyReason(g) + firstN(g.Body, 400) + "\n\n")
+	}
+	b.WriteString("---- now:\n")
+	for _, g := range dumpAll() {
+		b.WriteString("goroutine " + g.ID + " [" + g.State + "] busy=" + busyReason(g) + firstN(g.Body, 400) + "\n\n")
+	}
+	return b.String()
+}
+
+func firstN(s string, n int) string {
+	if len(s) > n {
+		return s[:n]
+	}
+	return s
 }
